@@ -58,5 +58,10 @@ def _peek(v, m):
             cps = [ord(ch) for ch in v]
         return "".join(chr(_peek(c, m)) for c in cps)
     if isinstance(v, CrossHairValue):
-        raise TypeError("peek: unsupported " + tn)
+        # generic symbolic sequence (List[int] arguments, slices, concatenations)
+        try:
+            n = _peek(_len(v), m)
+            return [_peek(_item(v, i), m) for i in range(n)]
+        except Exception:
+            raise TypeError("peek: unsupported " + tn)
     return v
